@@ -1,6 +1,260 @@
-/- C19 — property theorems.  Stub. -/
-import CBV.Model.C19
+/-
+C19 — property theorems: grid, slice and core/shell addressing is geometric.
+
+For all sizes (induction / list lemmas on the loops of `Grid.__init__`, `LoftedShape.__init__`,
+`TransformedStack.__init__`, `Stack.get_slice`):
+* `T_C19_grid_sketch`  `Grid(nx, ny).grid[j][i]` is the face over column i, row j;
+* `T_C19_lofted`       `LoftedShape.grid[i][j]` is the loft of `sketch_1.grid[i][j]` and its image, for every sketch;
+* `T_C19_grid`         `stack.grid[k][j][i]` is the operation over column i, row j, on tier k;
+* `T_C19_slice`        `get_slice(a, idx)` holds exactly the operations whose index along `a` is `idx`, each once;
+* `T_C19_slice_reject` an index beyond the size is an IndexError;
+* `T_C19_delete`       removing `grid[k][j][i]` from `stack.operations` removes that one operation and no other.
+By `decide` on the tables regenerated from the source at every run:
+* `T_C19_core_shell`, `T_C19_shape_core_shell`  core ++ shell partition the faces / operations, shell = those with a point
+  on the outer rim, `RoundSolidShape.core/shell` = take/drop of the flattened sketch grid;
+* `T_C19_wrapped_partial` + `T_C19_wrapped_counterexample`  what holds and what does not for `WrappedDisk`.
+-/
+import CBV.Lemmas.C19
 
 namespace CBV.C19
+
+/-! ### cartesian grids, all sizes -/
+
+/-- `Grid(p1, p2, nx, ny)`: ny rows of nx faces, `grid[j][i]` is the face over column i, row j
+    (its points are the lattice nodes (i,j) (i+1,j) (i+1,j+1) (i,j+1)) -/
+theorem T_C19_grid_sketch (nx ny level : Nat) :
+    (gridSketch nx ny level).length = ny ∧ (∀ row ∈ gridSketch nx ny level, row.length = nx) ∧
+    ∀ i j, i < nx → j < ny →
+      ((gridSketch nx ny level)[j]?).bind (·[i]?) = some ⟨i, j, level⟩ ∧
+      (⟨i, j, level⟩ : Face3).nodes = [(i, j), (i + 1, j), (i + 1, j + 1), (i, j + 1)] := by
+  rw [gridSketch_eq]
+  refine ⟨by simp, ?_, ?_⟩
+  · intro row hrow
+    simp only [List.mem_map, List.mem_range] at hrow
+    obtain ⟨_, _, rfl⟩ := hrow
+    simp
+  · intro i j hi hj
+    simp [hi, hj, Face3.nodes]
+
+/-- `LoftedShape(sketch_1, sketch_2)` with `sketch_2` a transformed copy: the grid of operations has the shape of
+    `sketch_1.grid` and `lofts[i][j]` is made from `sketch_1.grid[i][j]` and its image — any sketch, any sizes -/
+theorem T_C19_lofted {α : Type} (τ : α → α) (g : List (List α)) :
+    ∃ L : List (List (α × α)), loftedGrid g (g.map (·.map τ)) = some L ∧ L.length = g.length ∧
+      ∀ i j : Nat, (L[i]?).bind (·[j]?) = ((g[i]?).bind (·[j]?)).map (fun f => (f, τ f)) := by
+  refine ⟨_, loftedGrid_map τ g, by simp, ?_⟩
+  intro i j
+  simp only [List.getElem?_map]
+  cases g[i]? with
+  | none => rfl
+  | some row =>
+    simp only [Option.map_some, Option.bind_some, List.getElem?_map]
+
+/-- `ExtrudedStack / RevolvedStack / TransformedStack(Grid(nx, ny), …, nz).grid[k][j][i]` is the operation whose
+    bottom face is cell (i, j) on level k and whose top face is the same cell on level k+1 -/
+theorem T_C19_grid (nx ny nz : Nat) :
+    ∃ G, stackGrid nx ny nz = some G ∧ G.length = nz ∧
+      ∀ i j k, i < nx → j < ny → k < nz →
+        (((G[k]?).bind (·[j]?)).bind (·[i]?)) = some (cell i j k) ∧
+        (cell i j k).bottom = ⟨i, j, k⟩ ∧ (cell i j k).top = ⟨i, j, k + 1⟩ := by
+  refine ⟨_, stackGrid_eq nx ny nz, by simp, ?_⟩
+  intro i j k hi hj hk
+  simp [tier_eq, hi, hj, hk, cell]
+
+/-- the index of an operation along axis 0 (column), 1 (row), 2 (tier) -/
+def coord (a : Nat) (c : Loft) : Nat := if a = 0 then c.bottom.ix else if a = 1 then c.bottom.iy else c.bottom.level
+
+def dim (nx ny nz a : Nat) : Nat := if a = 0 then nx else if a = 1 then ny else nz
+
+/-- `get_slice(a, idx)`, a ∈ {0, 1, 2}, valid idx: exactly the operations of the stack with index `idx` along `a`, each once -/
+theorem T_C19_slice (nx ny nz a idx : Nat) (ha : a ≤ 2) (hidx : idx < dim nx ny nz a) :
+    ∃ G L, stackGrid nx ny nz = some G ∧ getSlice G a idx = some L ∧ L.Nodup ∧
+      ∀ c, c ∈ L ↔ (c ∈ stackOps G ∧ coord a c = idx) := by
+  refine ⟨_, ?_, stackGrid_eq nx ny nz, ?_⟩
+  · exact if a = 0 then (List.range nz).flatMap (fun k => (List.range ny).map (fun j => cell idx j k))
+      else if a = 1 then (List.range nz).flatMap (fun k => (List.range nx).map (fun i => cell i idx k))
+      else (List.range ny).flatMap (fun j => (List.range nx).map (fun i => cell i j idx))
+  have h3 : a = 0 ∨ a = 1 ∨ a = 2 := by omega
+  rcases h3 with rfl | rfl | rfl
+  · simp only [dim, if_true] at hidx
+    refine ⟨by simpa using slice0_eq nx ny nz idx hidx, ?_, ?_⟩
+    · simp only [if_true]
+      apply nodup_flatMap_range
+      · intro k; apply nodup_map_range; intro x y h; exact (cell_inj _ _ _ _ _ _ h).2.1
+      · intro x y hxy c hc hc'
+        simp only [List.mem_map, List.mem_range] at hc hc'
+        obtain ⟨j, _, rfl⟩ := hc
+        obtain ⟨j', _, h⟩ := hc'
+        exact hxy (cell_inj _ _ _ _ _ _ h).2.2.symm
+    · intro c
+      rw [mem_stackOps]
+      simp only [if_true, List.mem_flatMap, List.mem_map, List.mem_range, coord]
+      constructor
+      · rintro ⟨k, hk, j, hj, rfl⟩; exact ⟨⟨idx, j, k, hidx, hj, hk, rfl⟩, rfl⟩
+      · rintro ⟨⟨i, j, k, hi, hj, hk, rfl⟩, h⟩
+        simp only [cell] at h
+        subst h
+        exact ⟨k, hk, j, hj, rfl⟩
+  · simp only [dim, show ¬ (1 : Nat) = 0 by decide, if_false, if_true] at hidx
+    refine ⟨by simpa using slice1_eq nx ny nz idx hidx, ?_, ?_⟩
+    · simp only [show ¬ (1 : Nat) = 0 by decide, if_false, if_true]
+      apply nodup_flatMap_range
+      · intro k; apply nodup_map_range; intro x y h; exact (cell_inj _ _ _ _ _ _ h).1
+      · intro x y hxy c hc hc'
+        simp only [List.mem_map, List.mem_range] at hc hc'
+        obtain ⟨i, _, rfl⟩ := hc
+        obtain ⟨i', _, h⟩ := hc'
+        exact hxy (cell_inj _ _ _ _ _ _ h).2.2.symm
+    · intro c
+      rw [mem_stackOps]
+      simp only [show ¬ (1 : Nat) = 0 by decide, if_false, if_true, List.mem_flatMap, List.mem_map, List.mem_range, coord]
+      constructor
+      · rintro ⟨k, hk, i, hi, rfl⟩; exact ⟨⟨i, idx, k, hi, hidx, hk, rfl⟩, rfl⟩
+      · rintro ⟨⟨i, j, k, hi, hj, hk, rfl⟩, h⟩
+        simp only [cell] at h
+        subst h
+        exact ⟨k, hk, i, hi, rfl⟩
+  · simp only [dim, show ¬ (2 : Nat) = 0 by decide, show ¬ (2 : Nat) = 1 by decide, if_false] at hidx
+    refine ⟨by simpa using slice2_eq nx ny nz idx hidx, ?_, ?_⟩
+    · simp only [show ¬ (2 : Nat) = 0 by decide, show ¬ (2 : Nat) = 1 by decide, if_false]
+      apply nodup_flatMap_range
+      · intro j; apply nodup_map_range; intro x y h; exact (cell_inj _ _ _ _ _ _ h).1
+      · intro x y hxy c hc hc'
+        simp only [List.mem_map, List.mem_range] at hc hc'
+        obtain ⟨i, _, rfl⟩ := hc
+        obtain ⟨i', _, h⟩ := hc'
+        exact hxy (cell_inj _ _ _ _ _ _ h).2.1.symm
+    · intro c
+      rw [mem_stackOps]
+      simp only [show ¬ (2 : Nat) = 0 by decide, show ¬ (2 : Nat) = 1 by decide, if_false, List.mem_flatMap,
+        List.mem_map, List.mem_range, coord]
+      constructor
+      · rintro ⟨j, hj, i, hi, rfl⟩; exact ⟨⟨i, j, idx, hi, hj, hidx, rfl⟩, rfl⟩
+      · rintro ⟨⟨i, j, k, hi, hj, hk, rfl⟩, h⟩
+        simp only [cell] at h
+        subst h
+        exact ⟨j, hj, i, hi, rfl⟩
+
+/-- non-vacuity of `T_C19_slice`: a 2 x 5 grid, 3 tiers, as in the docstring of `get_slice`: 15 / 6 / 10 operations -/
+example : ((stackGrid 2 5 3).bind (getSlice · 0 1)).map List.length = some 15 ∧
+    ((stackGrid 2 5 3).bind (getSlice · 1 4)).map List.length = some 6 ∧
+    ((stackGrid 2 5 3).bind (getSlice · 2 2)).map List.length = some 10 := by decide
+
+/-- the rejecting branch: an index beyond the size is an IndexError, on every axis (the stack is not empty) -/
+theorem T_C19_slice_reject (nx ny nz a idx : Nat) (ha : a ≤ 2) (hn : 0 < nx ∧ 0 < ny ∧ 0 < nz)
+    (hidx : dim nx ny nz a ≤ idx) :
+    ∃ G, stackGrid nx ny nz = some G ∧ getSlice G a idx = none := by
+  refine ⟨_, stackGrid_eq nx ny nz, ?_⟩
+  have h3 : a = 0 ∨ a = 1 ∨ a = 2 := by omega
+  rcases h3 with rfl | rfl | rfl
+  · simp only [dim, if_true] at hidx
+    simp only [getSlice]
+    rw [if_neg (by decide : ¬ ((0 : Nat) = 2)), if_pos trivial]
+    have : allSome (((List.range nz).map (tier nx ny)).map (fun g => allSome (g.map (fun row => row[idx]?)))) = none := by
+      apply allSome_none
+      simp only [List.mem_map, List.mem_range]
+      refine ⟨tier nx ny 0, ⟨0, hn.2.2, rfl⟩, ?_⟩
+      apply allSome_none
+      simp only [tier_eq, List.mem_map, List.mem_range]
+      refine ⟨_, ⟨0, hn.2.1, rfl⟩, ?_⟩
+      simp [hidx]
+    rw [this]; rfl
+  · simp only [dim, show ¬ (1 : Nat) = 0 by decide, if_false, if_true] at hidx
+    simp only [getSlice]
+    rw [if_neg (by decide : ¬ ((1 : Nat) = 2)), if_neg (by decide : ¬ ((1 : Nat) = 0))]
+    have : allSome (((List.range nz).map (tier nx ny)).map (fun g => g[idx]?)) = none := by
+      apply allSome_none
+      simp only [List.mem_map, List.mem_range]
+      refine ⟨tier nx ny 0, ⟨0, hn.2.2, rfl⟩, ?_⟩
+      simp [tier_eq, hidx]
+    rw [this]; rfl
+  · simp only [dim, show ¬ (2 : Nat) = 0 by decide, show ¬ (2 : Nat) = 1 by decide, if_false] at hidx
+    simp [getSlice, hidx]
+
+/-- Deleting the addressed operation `grid[k][j][i]` from `stack.operations` (what `Mesh.delete` + assembly do,
+    see `T_C12_delete`: the blocks are the operations that are not deleted) removes that operation — it occurs once —
+    and no other. -/
+theorem T_C19_delete (nx ny nz i j k : Nat) (hi : i < nx) (hj : j < ny) (hk : k < nz) :
+    ∃ G, stackGrid nx ny nz = some G ∧ (stackOps G).Nodup ∧ (stackOps G).length = nz * (ny * nx) ∧
+      cell i j k ∈ stackOps G ∧
+      ((stackOps G).filter (fun o => decide (o ≠ cell i j k))).length + 1 = (stackOps G).length ∧
+      ∀ o, o ∈ (stackOps G).filter (fun o => decide (o ≠ cell i j k)) ↔ (o ∈ stackOps G ∧ o ≠ cell i j k) := by
+  refine ⟨_, stackGrid_eq nx ny nz, stackOps_nodup nx ny nz, ?_, ?_, ?_, ?_⟩
+  · rw [stackOps_eq]
+    simp [List.length_flatMap]
+  · rw [mem_stackOps]; exact ⟨i, j, k, hi, hj, hk, rfl⟩
+  · have hm : cell i j k ∈ stackOps ((List.range nz).map (tier nx ny)) := by
+      rw [mem_stackOps]; exact ⟨i, j, k, hi, hj, hk, rfl⟩
+    have hnd := stackOps_nodup nx ny nz
+    have he := List.Nodup.erase_eq_filter hnd (cell i j k)
+    have hl := List.length_erase_of_mem hm
+    have hpos : 0 < (stackOps ((List.range nz).map (tier nx ny))).length := List.length_pos_of_mem hm
+    have : (stackOps ((List.range nz).map (tier nx ny))).filter (fun o => decide (o ≠ cell i j k))
+        = (stackOps ((List.range nz).map (tier nx ny))).erase (cell i j k) := by
+      rw [he]
+      apply List.filter_congr
+      intro o _
+      by_cases h : o = cell i j k <;> simp [h]
+    rw [this, hl]
+    omega
+  · intro o
+    simp [List.mem_filter]
+
+/-! ### round sketches and shapes: `decide` on the tables generated from the current source -/
+
+/-- `WrappedDisk` is a disk inside a square: its middle ring is neither in `core` nor in `shell` (see below) -/
+def exceptions : List String := ["WrappedDisk", "RoundSolidShape(WrappedDisk)"]
+
+/-- core ++ shell is a partition of the faces; the grid is a partition of the faces; a face is in `shell` iff one of its
+    points is on the outer rim; `RoundSolidShape.core/shell` (take/drop on the flattened grid) are `core`/`shell` -/
+def sketchOk (r : SketchRow) : Bool :=
+  let n := r.2.1.length
+  isPerm (operations r.2.2.1) n && isPerm (r.2.2.2.1 ++ r.2.2.2.2.1) n &&
+  (List.range n).all (fun k => r.2.2.2.2.1.contains k == touches r.2.1 r.2.2.2.2.2 k) &&
+  (coreShell r == (r.2.2.2.1, r.2.2.2.2.1))
+
+theorem T_C19_core_shell :
+    (CBV.Gen.c19Sketches.filter (fun r => !exceptions.contains r.1)).all sketchOk = true := by decide
+
+/-- for a shape: core ++ shell partition the operations, an operation is in `shell` iff one of its 8 points is on the
+    outer surface, the operations are the flattened sketch grid and `core`/`shell` are `RoundSolidShape.core/shell`
+    of the model -/
+def shapeOk (r : ShapeRow) : Bool :=
+  let n := r.2.2.1.length
+  isPerm (r.2.2.2.2.1 ++ r.2.2.2.2.2.1) n &&
+  (List.range n).all (fun k => r.2.2.2.2.2.1.contains k == touches r.2.2.1 r.2.2.2.2.2.2 k) &&
+  (r.2.1 == "-" ||
+    match sketchRow? r.2.1 with
+    | some s => r.2.2.2.1 == operations s.2.2.1 &&
+        r.2.2.2.2.1.map (r.2.2.2.1.getD · 0) == (coreShell s).1 && r.2.2.2.2.2.1.map (r.2.2.2.1.getD · 0) == (coreShell s).2
+    | none => false)
+
+theorem T_C19_shape_core_shell :
+    (CBV.Gen.c19Shapes.filter (fun r => !exceptions.contains r.1)).all shapeOk = true := by decide
+
+/-- non-vacuity: the tables are not empty and hold the shipped shapes -/
+example : 12 ≤ (CBV.Gen.c19Sketches.filter (fun r => !exceptions.contains r.1)).length ∧
+    ["Cylinder", "SemiCylinder", "Frustum", "Elbow", "ExtrudedRing8", "Hemisphere"].all
+      (fun n => (CBV.Gen.c19Shapes.filter (fun r => !exceptions.contains r.1)).any (fun r => r.1 == n)) = true := by decide
+
+/-- `WrappedDisk`: `shell` is exactly the set of faces on the outer rim and `core`/`shell` are disjoint;
+    `RoundSolidShape(WrappedDisk)`: core ++ shell partition the operations and every operation on the rim is in `shell` -/
+def wrappedPartialOk : Bool :=
+  (match sketchRow? "WrappedDisk" with
+    | some r => (List.range r.2.1.length).all (fun k => r.2.2.2.2.1.contains k == touches r.2.1 r.2.2.2.2.2 k) &&
+        r.2.2.2.1.all (fun k => !r.2.2.2.2.1.contains k)
+    | none => false) &&
+  (match shapeRow? "RoundSolidShape(WrappedDisk)" with
+    | some r => isPerm (r.2.2.2.2.1 ++ r.2.2.2.2.2.1) r.2.2.1.length &&
+        (List.range r.2.2.1.length).all (fun k => !touches r.2.2.1 r.2.2.2.2.2.2 k || r.2.2.2.2.2.1.contains k)
+    | none => false)
+
+theorem T_C19_wrapped_partial : wrappedPartialOk = true := by decide
+
+/-- … but the full statement fails there: the four faces between the inner square and the circle are in neither list of
+    the sketch, and `RoundSolidShape(WrappedDisk).shell` holds them although they do not touch the outer surface
+    (known finding `WrappedDisk.core/shell:middle-ring`) -/
+theorem T_C19_wrapped_counterexample :
+    (sketchRow? "WrappedDisk").map sketchOk = some false ∧
+    (shapeRow? "RoundSolidShape(WrappedDisk)").map shapeOk = some false := by decide
 
 end CBV.C19
